@@ -123,18 +123,25 @@ correspondence generators stay inside this domain (malformed encodings are only 
 /-- all columns as entry lists -/
 def cols (M : Csc α) : List (List (Nat × α)) := (List.range M.n).map M.col
 
+/-- `let value = rows[r][c]; if value != T::zero() { push (r, value) }` -/
+def fromRowsEntry [BEq α] [OfNat α 0] (c : Nat) (p : Array α × Nat) : Option (Nat × α) :=
+  match (p.1[c]? : Option α) with
+  | some v => if v != (0 : α) then some (p.2, v) else none
+  | none => none
+
+/-- `rows.iter().map(|r| r.len()).next().unwrap_or(0)` -/
+def rowsWidth (rows : Array (Array α)) : Nat :=
+  match rows[0]? with
+  | some r => r.size
+  | none => 0
+
 /-- `CscMatrix::from(rows)`; `assert!(rows.iter().all(|r| r.len() == n))` -/
 def fromRows [BEq α] [OfNat α 0] (rows : Array (Array α)) : MErr (Csc α) :=
   let m := rows.size
-  let n := match rows[0]? with
-    | some r => r.size
-    | none => 0
+  let n := rowsWidth rows
   if !(rows.toList.all (fun r => r.size == n)) then throw (.panic "from: ragged rows") else
   let cols : List (List (Nat × α)) := (List.range n).map (fun c =>
-    rows.toList.zipIdx.filterMap (fun (p : Array α × Nat) =>
-      match (p.1[c]? : Option α) with
-      | some v => if v != (0 : α) then some (p.2, v) else none
-      | none => none))
+    rows.toList.zipIdx.filterMap (fromRowsEntry c))
   pure (ofCols m n cols)
 
 /-- stable insertion of `e` into a list sorted by row (before the first entry whose row is
